@@ -72,7 +72,11 @@ Step ==
                          \* "has not started": none of its code ran and its start date is still ahead
                          \* (a delayed task cancelled IN the time step of its start date races with its start)
                          ELSE IF ~tk1[k].started /\ (t < tsk[k].tstart \/ tsk[k].d0)
-                              THEN [tk1 EXCEPT ![k].pre = TRUE, ![k].res = <<"tcancelled", k>>]
+                              \* (a task without start delay is still CREATED: its outcome is TaskCancelled at once; a
+                              \* delayed task is already suspended in its start delay: the cancellation is delivered
+                              \* later in this time step and a forced close can still overtake it - the outcome is then
+                              \* whatever the awaiters are told first, TaskCancelled or TaskClosed)
+                              THEN [tk1 EXCEPT ![k].pre = TRUE, ![k].res = IF tsk[k].d0 THEN <<"tcancelled", k>> ELSE @]
                          ELSE IF ~tk1[k].started THEN tk1
                          ELSE IF tsk[k].haspend THEN tk1
                          \* a task that sleeps beyond now cannot end on its own in this time step: it must end cancelled
@@ -99,6 +103,8 @@ Step ==
                LET k == e.k
                    got == IF e.e = "r" THEN <<"ok">> ELSE e.exc IN
                IF tsk[k].res # <<>> /\ tsk[k].res # got THEN Fail("C06.awaiters_disagree")
+               \* a task cancelled before it started can only be reported cancelled (or closed, see above)
+               ELSE IF tsk[k].pre /\ got[1] \notin {"tcancelled", "tclosed"} THEN Fail("C06.result_mismatch")
                ELSE IF tsk[k].ended /\ got # Expected(k) /\ ~(tsk[k].how = "failed" /\ got = tsk[k].exc)
                     THEN Fail("C06.result_mismatch")
                ELSE IF ~tsk[k].ended /\ ~tsk[k].pre /\ tsk[k].started /\ got[1] # "tclosed"
